@@ -295,6 +295,9 @@ func (o *c18obs) requester(i int, prog []c18op) {
 			if o.s.wait <= 0 {
 				o.fail("pool-queued-without-wait-timeout", "a request was queued although MaxConnWaitTimeout=0")
 			}
+			if o.s.deadline {
+				mcrt.Covered("waiter-deadline-checked")
+			}
 			if o.s.deadline && until > t0+timeout {
 				o.fail("pool-waiter-blocked-past-deadline", "requester %d called AcquireConn at %v with a wait limit of %v and was still blocked at %v (result %s)", i, t0, timeout, until, r.kind)
 			}
